@@ -51,6 +51,8 @@ def doc(s, n):
     ly2 = D("layer"); ly2["connectionoptions"] = CI(CI); ly2["connectionoptions"]["__type__"] = "connectionoptions"; ly2["connectionoptions"]["flatten"] = "YES"
     ly2["status"] = "on"
     m["layers"] = [ly, ly2]
+    m["shapepath"] = s                 # a simple keyword after nested blocks: its column is MAP's, not the last child's
+    cl["template"] = "t.html"          # likewise inside CLASS, after STYLE / LABEL
     return m
 
 
@@ -86,17 +88,19 @@ def spec(s, n, Q):
         (4, "kv", "COLOR", "1 2 3", "style"),
         (3, "end", "STYLE", None, None),
         (3, "open", "LABEL", None, None), (4, "kv", "SIZE", repr(n), "label"), (3, "end", "LABEL", None, None),
+        (3, "kv", "TEMPLATE", q("t.html"), "class"),
         (2, "end", "CLASS", None, None),
         (1, "end", "LAYER", None, None),
         (1, "open", "LAYER", None, None),
         (2, "open", "CONNECTIONOPTIONS", None, None), (3, "kvq", q("flatten"), q("YES"), "co"), (2, "end", "CONNECTIONOPTIONS", None, None),
         (2, "kv", "STATUS", "ON", "layer2"),
         (1, "end", "LAYER", None, None),
+        (1, "kv", "SHAPEPATH", q(s), "map"),
         (0, "end", "MAP", None, None),
     ]
 
 # longest simple keyword per object (key-value blocks: the quoted key)
-LONGEST = {"map": 6, "web": 9, "md": 11, "symbol": 4, "layer": 10, "class": 4, "style": 5, "label": 4, "co": 9, "layer2": 6}
+LONGEST = {"map": 9, "web": 9, "md": 11, "symbol": 4, "layer": 10, "class": 8, "style": 5, "label": 4, "co": 9, "layer2": 6}
 
 
 def layout(s, n, indent, spacer, Q, end_comment, align):
